@@ -234,22 +234,28 @@ fn union_expr(input: &str) -> IResult<&str, model::UnionExpr> {
 /// [\[19\] PathExpr](https://triple-underscore.github.io/XML/xpath10-ja.html#NT-UnionExpr)
 fn path_expr(input: &str) -> IResult<&str, model::PathExpr> {
     alt((
+        // the filter expression is parsed once: trying `FilterExpr '/' ...` and then `FilterExpr`
+        // again doubled the work at every level of nested parentheses or function calls.
         map(
             tuple((
                 filter_expr,
-                delimited(
-                    multispace0,
-                    map(
-                        alt((tag("//"), tag("/"))),
-                        model::LocationPathOperator::from,
+                opt(tuple((
+                    delimited(
+                        multispace0,
+                        map(
+                            alt((tag("//"), tag("/"))),
+                            model::LocationPathOperator::from,
+                        ),
+                        multispace0,
                     ),
-                    multispace0,
-                ),
-                relative_location_path,
+                    relative_location_path,
+                ))),
             )),
-            |(filter, op, path)| model::PathExpr::from((Some((Some(filter), op)), path)),
+            |(filter, rest)| match rest {
+                Some((op, path)) => model::PathExpr::from((Some((Some(filter), op)), path)),
+                None => model::PathExpr::from(filter),
+            },
         ),
-        map(filter_expr, model::PathExpr::from),
         map(
             tuple((
                 terminated(
